@@ -60,14 +60,20 @@ def run(rng, tier, res=None):
                 choices += ["rem"] * 4 + ["updg"] * 4
             else:
                 choices += ["rem"]
+            if black and not h.is_full():
+                choices += ["reins"] * 3       # an element that was returned is inserted again (a new insertion, returned once more)
             if h.is_full():
                 choices += ["insfull"] * 2
             if not contract:
                 choices += ["updb", "updworse"]
             ch = rng.choice(choices)
-            if ch in ("ins", "insfull", "insbad"):
+            if ch in ("ins", "insfull", "insbad", "reins"):
                 if ch == "ins":
                     x = rng.choice(white)
+                elif ch == "reins":
+                    x = rng.choice(black); res.hit("reinsert_after_remove")
+                    if not gray:
+                        res.hit("reinsert_into_drained_heap")
                 elif ch == "insfull":
                     x = rng.randrange(size)
                 else:
@@ -75,7 +81,7 @@ def run(rng, tier, res=None):
                     if h.color[x] != 0 and not h.is_full():
                         in_contract = False; res.hit("insert_nonwhite")
                 c = rng.choice(alphabet)
-                if h.color[x] == 0:
+                if h.color[x] == 0 or ch == "reins":
                     h.cost[x] = c; toks += [3, x, c]
                 else:
                     toks += [0, x]
@@ -157,8 +163,9 @@ def run(rng, tier, res=None):
                 v.setdefault("replay", {"stream": "heap", "tokens": list(toks), "size": size, "max": is_max})
             continue
         if in_contract:
-            if len(returned) != len(set(returned)):
-                res.violations.append({"property": "C05", "what": "an element was returned twice"})
+            from collections import Counter as _C
+            if any(v > _C(inserted)[x] for x, v in _C(returned).items()):
+                res.violations.append({"property": "C05", "what": "an element was returned more often than it was inserted"})
             # drain: everything still queued must come out exactly once
             rest = []
             while True:
@@ -173,6 +180,9 @@ def run(rng, tier, res=None):
                 if ret is False:
                     break
                 rest.append(ret)
+            if _C(returned + rest) != _C(inserted):
+                res.violations.append({"property": "C05", "what": f"insertions {sorted(inserted)} but removals returned {sorted(returned + rest)}: "
+                                       f"not every inserted element is returned exactly once"})
             if sorted(rest) != sorted(shadow.keys()):
                 res.violations.append({"property": "C05", "what": f"drain returned {rest}, queued were {sorted(shadow)}"})
             if [shadow[x] for x in rest] != sorted((shadow[x] for x in rest), reverse=is_max):
